@@ -629,7 +629,7 @@ class Spec:
     lean_targets = ["Mhd.Props.C15", "drv_pp"]
     required_theorems = ["Mhd.C15.url_roundtrip_tokens", "Mhd.C15.url_every_call_accepts", "Mhd.C15.url_roundtrip",
                          "Mhd.C15.url_split_independent", "Mhd.C15.url_no_fault",
-                         "Mhd.C15.multipart_all_inputs_partial"]
+                         "Mhd.C15.multipart_all_inputs"]
     trusted_base = ["Lean 4 kernel", "axioms: propext, Classical.choice, Quot.sound at most (audited per theorem)",
                     "hand-written model lean/Mhd/Model/PP*.lean tied to postprocessor.c by this run's correspondence "
                     "(it includes small models of MHD_unescape_plus, MHD_str_pct_decode_in_place_lenient_, "
@@ -637,8 +637,7 @@ class Spec:
                     "tools/props/C15.py gen_pp (XBUF_SIZE, sizeof pp->xbuf, encoding names, minimum buffer regenerated)",
                     "harness/h_pp.c, gcc, ASan/UBSan"]
     assumptions = ["the iterator callback returns MHD_YES", "chunk lengths, buffer size and value lengths < 2^63 (no size_t / uint64_t wrap)",
-                   "Content-Type header value is a C string (no NUL)", "malloc/strdup/calloc succeed (allocation failure is C07)",
-                   "multipart: the model's loop fuel suffices (theorem multipart_all_inputs_partial); exhaustion would show as a model fault in the diff"]
+                   "Content-Type header value is a C string (no NUL)", "malloc/strdup/calloc succeed (allocation failure is C07)"]
 
     def gen(self, ctx):
         gen_pp()
